@@ -5,6 +5,7 @@ import flowpaths.nodeexpandeddigraph as nedg
 import networkx as nx
 from copy import deepcopy
 import time
+import numbers
 
 class MinErrorFlow():
     def __init__(
@@ -489,7 +490,7 @@ class MinErrorFlow():
         # absolute differences, tight where the objective pushes them down (not in the few-flow-values model,
         # nor on edges with error scaling 0)
         error = sum(
-            abs(data[self.flow_attr] - self.edge_sol[(u, v)])
+            abs((int(data[self.flow_attr]) if isinstance(data[self.flow_attr], numbers.Integral) else float(data[self.flow_attr])) - self.edge_sol[(u, v)])
             for u, v, data in self.G.edges(data=True)
             if (u, v) not in self.edges_to_ignore
         )
